@@ -183,6 +183,7 @@ def parseOp (w : Nat) (toks : List String) : Op :=
   | ["internreq", n] => orBad (n.toNat?.map Op.internreq)
   | ["interncopy", h] => orBad ((parseHexBytes h).map Op.interncopy)
   | ["cached", h] => orBad ((parseHexBytes h).map Op.cached)
+  | ["cachedp", h, k] => orBad (do let b ← parseHexBytes h; let k ← k.toNat?; if k ≤ b.size then pure (Op.cached (b.extract 0 k)) else none)
   | ["cacheds", h] => orBad ((parseHexBytes h).map Op.cached)
   | ["box", "null"] => .boxNull
   | ["box", "bool", n] => orBad (n.toNat?.map (fun n => Op.boxBool (n != 0)))
